@@ -315,6 +315,9 @@ def r8(ctx, F, rule, sfx):
 
 
 def r6(ctx, F, rule, sfx):
+    integrals_start_from_zero(ctx, F, rule, sfx, 'voronoi::integrals::CellIntegral')
+    # what users read: the cell accessors return the stored values
+    accessor_consistency(ctx, F, rule, sfx, 'voronoi_cell::VoronoiCell', ['volume', 'centroid', 'loc'])
     n = 0
     for imp in F.impls_of_trait('voronoi::integrals::CellIntegral'):
         st = imp['self']
